@@ -1,20 +1,24 @@
 pub mod common;
 pub mod c02;
+pub mod c04;
 pub mod c10;
 pub mod c11;
+pub mod c12;
 pub mod c13;
 
 use crate::engine::Property;
 
 pub fn all_ids() -> Vec<&'static str> {
-    vec!["C02", "C10", "C11", "C13"]
+    vec!["C02", "C04", "C10", "C11", "C12", "C13"]
 }
 
 pub fn get(id: &str) -> Option<Property> {
     match id {
         "C02" => Some(c02::property()),
+        "C04" => Some(c04::property()),
         "C10" => Some(c10::property()),
         "C11" => Some(c11::property()),
+        "C12" => Some(c12::property()),
         "C13" => Some(c13::property()),
         _ => None,
     }
